@@ -18,6 +18,8 @@ namespace SplinkVerif.Score
 class Num (α : Type) where
   zero : α
   one : α
+  /-- integer literals and counts -/
+  ofNat : Nat → α
   add : α → α → α
   sub : α → α → α
   mul : α → α → α
